@@ -285,7 +285,7 @@ def _escaping(repo, rep):
     rep.check(consts.get('SINGLE_QUOTE_TEXT') == "'" and consts.get('DOUBLE_QUOTE_TEXT') == '"' and
               consts.get('SINGLE_QUOTE_BYTES') == b"'" and consts.get('DOUBLE_QUOTE_BYTES') == b'"', 'C02.e', 'quote-constants', m.relpath,
               'quote constants are the two quote characters', 'quote constants are %s' % consts, nontrivial=True)
-    it = S.interp(repo, 'builder', {'_builtin_repr': lambda it_, a, k, nd: SymStr('REPR', nonempty=True),
+    it = S.interp(repo, 'builder', {__import__('engine.roles', fromlist=['x']).name(repo, 'builtin_repr'): lambda it_, a, k, nd: SymStr('REPR', nonempty=True),
                                     'repr': lambda it_, a, k, nd: SymStr('REPR', nonempty=True)})
     other = {"'": '"', '"': "'"}
     for q in ("'", '"'):
